@@ -628,6 +628,106 @@ def _dim_rebindings(fnode):
     return out
 
 
+class _NoSched(Exception):
+    pass
+
+
+def _sched_eval(e, L):
+    """value of the pass-count expression for the sequence length L: integers, + - * //, int(), math.log2 / ceil / floor, (..).bit_length(), the name L"""
+    import math
+    if isinstance(e, ast.Constant) and isinstance(e.value, (int, float)):
+        return e.value
+    if isinstance(e, ast.Name) and e.id == 'L':
+        return L
+    if isinstance(e, ast.Subscript) and isinstance(e.value, ast.Attribute) and e.value.attr == 'shape':
+        return L                                           # the extent of the scanned axis
+    if isinstance(e, ast.Call) and isinstance(e.func, ast.Attribute) and e.func.attr == 'size' and len(e.args) == 1:
+        return L
+    if isinstance(e, ast.BinOp):
+        a, b = _sched_eval(e.left, L), _sched_eval(e.right, L)
+        if isinstance(e.op, ast.Add):
+            return a + b
+        if isinstance(e.op, ast.Sub):
+            return a - b
+        if isinstance(e.op, ast.Mult):
+            return a * b
+        if isinstance(e.op, ast.FloorDiv) and b != 0:
+            return a // b
+        if isinstance(e.op, ast.Div) and b != 0:
+            return a / b
+    if isinstance(e, ast.UnaryOp) and isinstance(e.op, ast.USub):
+        return -_sched_eval(e.operand, L)
+    if isinstance(e, ast.Call):
+        d = dotted(e.func) or ''
+        if d in ('int', 'math.floor', 'math.ceil', 'math.log2', 'max', 'min') and e.args:
+            vs = [_sched_eval(a, L) for a in e.args]
+            if d == 'math.log2':
+                if vs[0] <= 0:
+                    raise _NoSched('log2 of %r' % vs[0])
+                return math.log2(vs[0])
+            return {'int': lambda: int(vs[0]), 'math.floor': lambda: math.floor(vs[0]), 'math.ceil': lambda: math.ceil(vs[0]), 'max': lambda: max(vs), 'min': lambda: min(vs)}[d]()
+        if isinstance(e.func, ast.Attribute) and e.func.attr == 'bit_length' and not e.args:
+            v = _sched_eval(e.func.value, L)
+            if isinstance(v, int):
+                return v.bit_length()
+    raise _NoSched(src(e)[:40])
+
+
+@guarded
+def rule_sched(repo, tier):
+    """The index schedule of the doubling scan depends on L only: pass k combines item j with item j - 2^k.  With n(L) passes the scan is the fold of all L items
+    iff 2^n >= L, and every pass has something to combine iff 2^(n-1) < L - so n(L) = ceil(log2 L) exactly (0 passes for L = 1).  The pass-count expression is
+    read from the source and evaluated for every L in 1..4096 (the whole range the property quantifies over).  One pass too few leaves the tail folded over a
+    window; one pass too many calls the user's operation with two EMPTY operands (stride >= L), which item-wise operations (a Python loop / torch.stack over
+    the items) cannot take."""
+    res = RuleResult('C12.SCHED', 'cumops_: the number of doubling passes read from the source equals ceil(log2 L) for every L in 1..4096 (no missing pass, no pass with an '
+                     'empty index range)', floor=1)
+    f = repo.func(OPS, 'cumops_')
+    loops = [n for n in ast.walk(f.node) if isinstance(n, ast.For)]
+    counts = []
+    for lp in loops:
+        it = inline_straight(f.node, upto=lp).value(lp.iter)
+        for c in ast.walk(it):
+            if isinstance(c, ast.Call) and dotted(c.func) in ('torch.arange', 'range') and c.args:
+                counts.append((lp, c.args[0] if len(c.args) == 1 else None, c))
+    counts = [(lp, e, c) for lp, e, c in counts if e is not None]
+    if not counts:
+        raise AnalysisError('C12.SCHED: the pass count of the doubling loop was not found')
+    lp, e, c = counts[0]
+    # the length variable: the name bound to input.shape[dim]
+    lname = None
+    for n in ast.walk(f.node):
+        if isinstance(n, ast.Assign):
+            for t, v in (zip(n.targets[0].elts, n.value.elts) if isinstance(n.targets[0], ast.Tuple) and isinstance(n.value, ast.Tuple) else [(n.targets[0], n.value)]):
+                if isinstance(t, ast.Name) and isinstance(v, ast.Subscript) and isinstance(v.value, ast.Attribute) and v.value.attr == 'shape':
+                    lname = t.id
+    class Ren(ast.NodeTransformer):
+        def visit_Name(self, n):
+            return ast.Name('L', n.ctx) if n.id == lname else n
+    import copy, math
+    e2 = Ren().visit(copy.deepcopy(e))
+    few = many = None
+    try:
+        for L in range(1, 4097):
+            n = _sched_eval(e2, L)
+            want = (L - 1).bit_length()
+            if n < want and few is None:
+                few = (L, n, want)
+            if n > want and many is None:
+                many = (L, n, want)
+    except _NoSched as ex:
+        raise AnalysisError('C12.SCHED: the pass count `%s` could not be evaluated (%s)' % (src(e)[:50], ex))
+    res.inst({'function': f.fq, 'pass count': src(e)[:60], 'first L with a missing pass': few, 'first L with an empty pass': many}, (f.fq, 'sched'))
+    if few:
+        res.add(Finding('C12.SCHED', f, 'the doubling loop makes %d passes for L = %d, ceil(log2 L) = %d are needed: items beyond position 2^%d are folded over a window, not '
+                        'over the whole prefix' % (few[1], few[0], few[2], few[1]), node=c, construct='too few doubling passes'))
+    if many:
+        res.add(Finding('C12.SCHED', f, 'the doubling loop makes %d passes for L = %d (ceil(log2 L) = %d): the last pass has stride >= L, an EMPTY index range, and still calls '
+                        'the operation with two zero-length operands - an associative operation written item by item (a loop / torch.stack over the items) raises for '
+                        'exactly these lengths (every power of two)' % (many[1], many[0], many[2]), node=c, construct='doubling pass with an empty range'))
+    return res
+
+
 @guarded
 def rule_order(repo, tier):
     """The doubling scan combines item j with item j - s for the strides s = 1, 2, 4, ... IN THAT ORDER: after the pass with stride s every item holds the fold of
@@ -810,6 +910,6 @@ def rules(repo, tier):
     from ..docsig import rule_docsig
     from ..axisdefault import rule_axisdefault
     from ..stale import rule_stale
-    return [rule_ki(repo, tier), rule_order(repo, tier), rule_role(repo, tier), rule_ret(repo, tier), rule_opview(repo, tier), rule_sb(repo, tier), rule_clone_alias(repo, tier), rule_deleg(repo, tier), rule_ext(repo, tier), rule_inplace(repo, tier), rule_negdim(repo, tier), rule_memo12(repo, tier),
+    return [rule_ki(repo, tier), rule_sched(repo, tier), rule_order(repo, tier), rule_role(repo, tier), rule_ret(repo, tier), rule_opview(repo, tier), rule_sb(repo, tier), rule_clone_alias(repo, tier), rule_deleg(repo, tier), rule_ext(repo, tier), rule_inplace(repo, tier), rule_negdim(repo, tier), rule_memo12(repo, tier),
             rule_stale(repo, 'C12.STALE', [(OPS, 'cumops_')]), rule_optional(repo, 'C12.OPT', [OPS])] + mode_rules(repo, 'C12', [OPS]) + [rule_callsig(repo, 'C12.SIG', [OPS]), rule_docsig(repo, 'C12.DOC', [OPS])] + [
             rule_axisdefault(repo, 'C12.AXDEF', [OPS])]
